@@ -345,7 +345,19 @@ impl<'a> LiveEvents<'a> {
                     panic!("serde_saphyr_verif liveness: next_impl skipped {verif_pulls} markers in a row");
                 }
             }
-            let (raw, span) = item.map_err(Error::from_scan_error)?;
+            let (raw, span) = match item {
+                Ok(x) => x,
+                Err(scan_error) => {
+                    // The parser raises this one only when text follows a document that ended
+                    // without a `...` marker. It is a syntax error of the stream, not "garbage
+                    // behind an explicit end marker": the single-document entry points must
+                    // not drop it (together with whatever documents follow it).
+                    if scan_error.info() == "did not find expected <document start>" {
+                        self.seen_doc_end = false;
+                    }
+                    return Err(Error::from_scan_error(scan_error));
+                }
+            };
             let location = location_from_span(&span);
 
             if let Some(ref mut budget) = self.budget
